@@ -81,7 +81,7 @@ def trace_of(d, mark) -> tuple:
 
 def run_unit(unit):
     tree, tier = unit
-    cfg, nodes, events = F.universal_config(tree)
+    cfg, nodes, events = F.universal_config(tree, reenter_all=False)
     byid = {n.id: n for n in nodes}
     ranked = [n.id for n in nodes if n.idx != 0 and not n.is_history]
     res = dict(states=0, transitions=0, executions=0, distinct_count=0, violations=[], samples=[], caps=[])
@@ -180,7 +180,7 @@ def replay(payload):
     from .c01 import _tuplify
 
     tree = _tuplify(payload["tree"])
-    cfg, nodes, events = F.universal_config(tree)
+    cfg, nodes, events = F.universal_config(tree, reenter_all=False)
     ranked = [n.id for n in nodes if n.idx != 0 and not n.is_history]
     out = []
     traces = []
